@@ -330,6 +330,7 @@ package ring
 //@   at exit: assert every_returned_is_walked: instanceFilter == nil && r1 == nil ==> (forall j int :: 0 <= j && j < len(r0) ==> 0 <= wpos[idAt[j]] && wpos[idAt[j]] < iterations && r0[j] == get(r.ringDesc.Ingesters, tokOwner(r, walkIdx(start, wpos[idAt[j]], len(r.ringTokens)))))
 //@   at exit: assert zone_skip_only_when_full: instanceFilter == nil && r.cfg.ZoneAwarenessEnabled && zonesRep(r) && r1 == nil ==> (forall k int :: 0 <= k && k < iterations ==> ssHas(distinctHosts, tokOwner(r, walkIdx(start, k, len(r.ringTokens)))) || zoneFull(zseen, foundHostsPerZone, targetHostsPerZone, zix[tokZone(r, walkIdx(start, k, len(r.ringTokens)))], tokZone(r, walkIdx(start, k, len(r.ringTokens)))))
 //@   at exit: assert zone_quota_respected: instanceFilter == nil && r.cfg.ZoneAwarenessEnabled && r1 == nil ==> (forall z int :: 0 <= z && z < len(r.ringZones) ==> foundHostsPerZone[z] <= targetHostsPerZone)
+//@   at exit: assert zone_one_each: replicationFactor == r.cfg.ReplicationFactor && replicationFactor >= 1 ==> targetHostsPerZone == 1
 //@   at exit: assert zone_complete: instanceFilter == nil && r.cfg.ZoneAwarenessEnabled && r1 == nil ==> len(r0) >= min(maxInstances, replicaSetSize) || iterations >= len(r.ringTokens) || (forall z int :: 0 <= z && z < len(totalHostsPerZone) ==> foundHostsPerZone[z] >= targetHostsPerZone || examinedHostsPerZone[z] >= totalHostsPerZone[z])
 //@   at exit: assert accounting: instanceFilter == nil && r1 == nil ==> replicaSetSize == replicationFactor + extCnt(op, r0, len(r0))
 //@   at exit: assert complete: instanceFilter == nil && r1 == nil && !r.cfg.ZoneAwarenessEnabled ==> len(r0) >= min(maxInstances, replicaSetSize) || iterations >= len(r.ringTokens)
